@@ -5,6 +5,7 @@ import (
 	"fmt"
 	"math/rand"
 	"os"
+	"sort"
 	"strings"
 	"time"
 
@@ -233,6 +234,9 @@ func c06Child(a *ChildArgs) {
 				if r.Intn(2) == 0 {
 					return fmt.Sprintf("-- c%d", nc)
 				}
+				if r.Intn(4) == 0 {
+					return fmt.Sprintf("/* c%d\n   more */", nc) // a block comment that spans lines
+				}
 				return fmt.Sprintf("/* c%d */", nc)
 			}
 			for st := 0; st < nst; st++ {
@@ -297,6 +301,11 @@ func c06Child(a *ChildArgs) {
 					if err != nil || y2 != y {
 						wit["second"] = y2
 						a.Rec.Viol("C06/comments/formatter.Format#not-idempotent", "formatting already formatted output returns it unchanged", firstDiff(y, y2), wit)
+						break
+					}
+					// the output carries the same comments as the input, each one still a comment of its own
+					if ci, co := c06CommentTexts(sql), c06CommentTexts(y); ci != co {
+						a.Rec.Viol("C06/comments/formatter.Format#comments-changed", "comments survive formatting", fmt.Sprintf("comments of the input %q, of the output %q", ci, co), wit)
 						break
 					}
 					// every comment written is still there
@@ -391,6 +400,20 @@ func c06Child(a *ChildArgs) {
 			c06One(a, "C06/corpus/"+f.Name, f.SQL, false, i)
 		}
 	}
+}
+
+// c06CommentTexts returns the sorted texts of the comments the tokenizer captures in a text.
+func c06CommentTexts(sql string) string {
+	tk := mustTokenizer()
+	if _, err := tk.Tokenize([]byte(sql)); err != nil {
+		return "tokenize error: " + firstLine(err.Error())
+	}
+	var cs []string
+	for _, c := range tk.Comments {
+		cs = append(cs, strings.TrimSpace(c.Text))
+	}
+	sort.Strings(cs)
+	return strings.Join(cs, " | ")
 }
 
 // safeSerialise runs a serialiser and turns a panic into an error (the panic itself is a C01 matter, but it also
